@@ -208,10 +208,12 @@ class RecordingCheck(PropertyCheck):
                 if pre_hash:
                     ct = getattr(job, "_rv_cache_type", None)
                     full = str(job.get_option("check_valid", "full")).lower().endswith("full")
+                    # C = the parent job was itself served from the cache (single reduction), or there is none
+                    pc = "C" if (job.parent_job is None or job.parent_job.was_cached) else ""
                     if ct == CacheResult.CSE:
-                        events.append(f"EHitCSE {by_call[pre_hash]} {'true' if full else 'false'}")
+                        events.append(f"EHitCSE{pc} {by_call[pre_hash]} {'true' if full else 'false'}")
                     else:
-                        events.append(f"EHitUlt {tid(job.task.hash)} [{vid(job.args_hash)}]")
+                        events.append(f"EHitUlt{pc} {tid(job.task.hash)} [{vid(job.args_hash)}]")
                 else:
                     kidx = sorted(((c.call_hash, jobs_idx[c.id]) for c in kids))
                     rh = s.backend.type_registry.get_hash(result)
